@@ -448,7 +448,7 @@ def _equality(case, ctx, res):
         exp, changed = False, True
     elif mode == "all" and (n is None or n):
         for k, w in m2:
-            for arr in ([w] if type(w).__name__ == "Array" else list(w._xyz.values())):
+            for arr in ([w] if type(w).__name__ == "Array" else [getattr(w, c_) for c_ in "xyz" if getattr(w, c_) is not None]):
                 arr._array[...] = arr._array + 7
         exp = False
     elif mode == "keys":
